@@ -18,24 +18,26 @@ Notation wpC s k := (wp (calls_le s k) (calls_le s k) (calls_le s k)).
 Lemma calls_adds s cs : calls (st_adds s cs) = calls s.
 Proof. apply st_adds_calls. Qed.
 
-Lemma encode_calls e range F s :
-  wp (fun s' => calls s' = calls s) (fun s' => calls s' = calls s) (fun s' => calls s' = calls s)
-     (encode_m thr e range F) (fun _ s' => calls s' = calls s) s.
+Lemma wp_encode_calls (QA QP QF : Prog.st -> Prop) e range F (Q : unit -> Prog.st -> Prop) s :
+  (forall s', calls s' = calls s -> Q tt s') -> (forall s', calls s' = calls s -> QP s') ->
+  wp QA QP QF (encode_m thr e range F) Q s.
 Proof.
-  unfold encode_m. destruct (encode_af e thr range F) as [[r C]|]; [|reflexivity].
+  intros HQ HP. unfold encode_m. destruct (encode_af e thr range F) as [[r C]|]; [|now apply HP].
   rewrite wp_bind. destruct r as [k|].
-  - rewrite wp_reserve, wp_add_clauses. now rewrite calls_adds.
-  - rewrite wp_ret, wp_add_clauses. now rewrite calls_adds.
+  - rewrite wp_reserve, wp_add_clauses. apply HQ. now rewrite calls_adds.
+  - rewrite wp_ret, wp_add_clauses. apply HQ. now rewrite calls_adds.
 Qed.
 
-Lemma guarded_calls e la close s0 s :
-  calls s = calls s0 ->
-  wpC s0 1 (guarded_disj oracle e (ret la) close) (fun _ s' => calls s' <= calls s0 + 1) s.
+Lemma wp_guarded_calls (QA QP QF : Prog.st -> Prop) e la close (Q : option assignment -> Prog.st -> Prop) s :
+  (forall r s', calls s' = calls s + 1 -> Q r s') -> (forall s', calls s' = calls s + 1 -> QA s') ->
+  wp QA QP QF (guarded_disj oracle e (ret la) close) Q s.
 Proof.
-  intros Hc. unfold guarded_disj.
+  intros HQ HA. unfold guarded_disj.
   rewrite wp_bind, wp_n_vars. cbv zeta. rewrite wp_bind, wp_ret, wp_bind, wp_add_clause, wp_bind, wp_solve.
-  destruct (answer_of oracle _ _); unfold calls_le; cbn; try lia;
-    rewrite wp_bind; destruct close; rewrite ?wp_add_clause, ?wp_ret; cbn; lia.
+  destruct (answer_of oracle _ _).
+  - rewrite wp_bind. destruct close; rewrite ?wp_add_clause, !wp_ret; apply HQ; cbn; lia.
+  - rewrite wp_bind. destruct close; rewrite ?wp_add_clause, !wp_ret; apply HQ; cbn; lia.
+  - apply HA. cbn. lia.
 Qed.
 
 Theorem st_cc_calls c in_cc pol s :
@@ -45,31 +47,15 @@ Theorem st_cc_calls c in_cc pol s :
 Proof.
   assert (H : wpC s 2 (st_cc oracle thr c in_cc pol) (fun _ s' => calls s' <= calls s + 2) s).
   { unfold st_cc. rewrite wp_bind, wp_new_solver, wp_bind.
-    pose proof (encode_calls StDefault false (c_af c) (st_new s)) as He. unfold wp in He |- *.
-    destruct (encode_m thr StDefault false (c_af c) (st_new s)) as [[] s1|s1|s1|s1];
-      unfold calls_le; cbn in He; try lia.
-    destruct in_cc as [|x xs].
-    - fold (wp (calls_le s 2) (calls_le s 2) (calls_le s 2)
-               (m <- solve oracle [];; ret (option_map (fun m0 => (m0, false)) m))
-               (fun _ s' => calls s' <= calls s + 2) s1).
-      rewrite wp_bind, wp_solve. destruct (answer_of oracle s1 []); unfold calls_le; cbn; lia.
+    apply wp_encode_calls; [intros s1 H1|intros s1 H1; unfold calls_le; cbn in H1; lia].
+    cbn in H1. destruct in_cc as [|x xs].
+    - rewrite wp_bind, wp_solve. destruct (answer_of oracle s1 []); unfold calls_le; cbn; lia.
     - destruct pol.
-      + match goal with |- match ?m s1 with _ => _ end =>
-          change (wp (calls_le s 2) (calls_le s 2) (calls_le s 2) m (fun _ s' => calls s' <= calls s + 2) s1) end.
-        rewrite wp_bind.
-        pose proof (guarded_calls StDefault (x :: xs) true s s1 He) as Hg.
-        unfold wp in Hg |- *.
-        destruct (guarded_disj oracle StDefault (ret (x :: xs)) true s1) as [r s2|s2|s2|s2];
-          unfold calls_le in *; try lia.
+      + rewrite wp_bind. apply wp_guarded_calls; [intros r s2 H2|intros s2 H2; unfold calls_le; lia].
         destruct r as [m|].
-        * cbn. lia.
-        * fold (wp (calls_le s 2) (calls_le s 2) (calls_le s 2)
-                   (m2 <- solve oracle [];; ret (option_map (fun m => (m, false)) m2))
-                   (fun _ s' => calls s' <= calls s + 2) s2).
-          rewrite wp_bind, wp_solve. destruct (answer_of oracle s2 []); unfold calls_le; cbn; lia.
-      + match goal with |- match ?m s1 with _ => _ end =>
-          change (wp (calls_le s 2) (calls_le s 2) (calls_le s 2) m (fun _ s' => calls s' <= calls s + 2) s1) end.
-        rewrite wp_bind, wp_solve. destruct (answer_of oracle s1 _); unfold calls_le; cbn; lia. }
+        * rewrite wp_ret. lia.
+        * rewrite wp_bind, wp_solve. destruct (answer_of oracle s2 []); unfold calls_le; cbn; lia.
+      + rewrite wp_bind, wp_solve. destruct (answer_of oracle s1 _); unfold calls_le; cbn; lia. }
   unfold wp, calls_le in H. destruct (st_cc oracle thr c in_cc pol s); exact H.
 Qed.
 
@@ -80,9 +66,8 @@ Theorem co_query_calls e F la close s :
 Proof.
   assert (H : wpC s 1 (encode_m thr e false F ;;; guarded_disj oracle e (ret la) close)
                   (fun _ s' => calls s' <= calls s + 1) s).
-  { rewrite wp_bind. pose proof (encode_calls e false F s) as He. unfold wp in He |- *.
-    destruct (encode_m thr e false F s) as [[] s1|s1|s1|s1]; unfold calls_le; cbn in He; try lia.
-    exact (guarded_calls e la close s s1 He). }
+  { rewrite wp_bind. apply wp_encode_calls; [intros s1 H1|intros s1 H1; unfold calls_le; lia].
+    apply wp_guarded_calls; [intros r s2 H2; lia|intros s2 H2; unfold calls_le; lia]. }
   unfold wp, calls_le in H.
   destruct ((encode_m thr e false F ;;; guarded_disj oracle e (ret la) close) s); exact H.
 Qed.
